@@ -407,6 +407,10 @@ def _icm(chk, ctx, mi) -> None:
     binds = [n for n in walk_no_nested(fi.node) if isinstance(n, (ast.Assign, ast.AugAssign, ast.AnnAssign))
              for t in (n.targets if isinstance(n, ast.Assign) else [n.target]) if isinstance(t, ast.Name) and t.id == 'chips']
     rets = [n for n in walk_no_nested(fi.node) if isinstance(n, ast.Return)]
+    pbinds = [n for n in walk_no_nested(fi.node) if isinstance(n, (ast.Assign, ast.AugAssign, ast.AnnAssign))
+              for t in (n.targets if isinstance(n, ast.Assign) else [n.target]) if isinstance(t, ast.Name) and t.id == 'payouts']
+    facts['prizes taken as given (every place, a zero in the middle included)'] = \
+        all(isinstance(n, ast.Assign) and T.norm(n.value) == T.spec('tuple(payouts)') for n in pbinds) and len(pbinds) <= 1
     facts['stacks taken as given, one value per seat, in seat order'] = \
         all(isinstance(n, ast.Assign) and T.norm(n.value) == T.spec('tuple(chips)') for n in binds) and len(binds) <= 1 \
         and len(rets) == 1 and rets[0].value is not None and any(
